@@ -1,0 +1,196 @@
+//go:build verif
+
+package nasType
+
+import "bytes"
+
+// Lemma functions for the deductive check in /verif: each builds a QoS structure from its arguments, serialises it,
+// parses the octets back and compares the result field by field in Go, so that a round-trip statement becomes the
+// postcondition "ok" of one function (contracts in verif_contracts.go). Compiled only with -tags verif; never called.
+
+// every packet filter component type of newPacketFilterComponent, in one packet filter of one "create" rule
+func verifLemmaRuleComponents(id, prec, qfi, pfid uint8, dqr, seg bool, dir PacketFilterDirection,
+	a4r, a4l [8]byte, proto uint8, lport, rport, llo, lhi, rlo, rhi uint16, spi uint32, tos, tosMask uint8, fl uint32,
+	dmac, smac [6]byte, cvid, svid uint16, cpcp, spcp uint8, et uint16,
+) (bool, []byte, error) {
+	comps := PacketFilterComponentList{
+		&PacketFilterMatchAll{},
+		&PacketFilterIPv4RemoteAddress{Address: a4r[0:4], Mask: a4r[4:8]},
+		&PacketFilterIPv4LocalAddress{Address: a4l[0:4], Mask: a4l[4:8]},
+		&PacketFilterProtocolIdentifier{Value: proto},
+		&PacketFilterSingleLocalPort{Value: lport},
+		&PacketFilterLocalPortRange{LowLimit: llo, HighLimit: lhi},
+		&PacketFilterSingleRemotePort{Value: rport},
+		&PacketFilterRemotePortRange{LowLimit: rlo, HighLimit: rhi},
+		&PacketFilterSecurityParameterIndex{Index: spi},
+		&PacketFilterServiceClass{Class: tos, Mask: tosMask},
+		&PacketFilterFlowLabel{Label: fl},
+		&PacketFilterDestinationMACAddress{MAC: dmac[:]},
+		&PacketFilterSourceMACAddress{MAC: smac[:]},
+		&PacketFilterCTagVID{VID: cvid},
+		&PacketFilterSTagVID{VID: svid},
+		&PacketFilterCTagPCPDEI{Value: cpcp},
+		&PacketFilterSTagPCPDEI{Value: spcp},
+		&PacketFilterEtherType{EtherType: et},
+	}
+	rules := QoSRules{{
+		Identifier: id, Operation: OperationCodeCreateNewQoSRule, DQR: dqr,
+		PacketFilterList: PacketFilterList{{Identifier: pfid, Direction: dir, Components: comps}},
+		Precedence:       prec, Segregation: seg, QFI: qfi,
+	}}
+	b, err := rules.MarshalBinary()
+	if err != nil {
+		return false, nil, err
+	}
+	var got QoSRules
+	if err := got.UnmarshalBinary(b); err != nil {
+		return false, b, err
+	}
+	if len(got) != 1 || len(got[0].PacketFilterList) != 1 {
+		return false, b, nil
+	}
+	r := got[0]
+	ok := r.Identifier == id && r.Operation == OperationCodeCreateNewQoSRule && r.DQR == dqr && r.Precedence == prec &&
+		r.Segregation == seg && r.QFI == qfi
+	pf := r.PacketFilterList[0]
+	ok = ok && pf.Identifier == pfid && pf.Direction == dir && len(pf.Components) == 18
+	if !ok {
+		return false, b, nil
+	}
+	c := pf.Components
+	_, ok0 := c[0].(*PacketFilterMatchAll)
+	c1, ok1 := c[1].(*PacketFilterIPv4RemoteAddress)
+	c2, ok2 := c[2].(*PacketFilterIPv4LocalAddress)
+	c3, ok3 := c[3].(*PacketFilterProtocolIdentifier)
+	c4, ok4 := c[4].(*PacketFilterSingleLocalPort)
+	c5, ok5 := c[5].(*PacketFilterLocalPortRange)
+	c6, ok6 := c[6].(*PacketFilterSingleRemotePort)
+	c7, ok7 := c[7].(*PacketFilterRemotePortRange)
+	c8, ok8 := c[8].(*PacketFilterSecurityParameterIndex)
+	c9, ok9 := c[9].(*PacketFilterServiceClass)
+	c10, ok10 := c[10].(*PacketFilterFlowLabel)
+	c11, ok11 := c[11].(*PacketFilterDestinationMACAddress)
+	c12, ok12 := c[12].(*PacketFilterSourceMACAddress)
+	c13, ok13 := c[13].(*PacketFilterCTagVID)
+	c14, ok14 := c[14].(*PacketFilterSTagVID)
+	c15, ok15 := c[15].(*PacketFilterCTagPCPDEI)
+	c16, ok16 := c[16].(*PacketFilterSTagPCPDEI)
+	c17, ok17 := c[17].(*PacketFilterEtherType)
+	if !(ok0 && ok1 && ok2 && ok3 && ok4 && ok5 && ok6 && ok7 && ok8 && ok9 && ok10 && ok11 && ok12 && ok13 && ok14 &&
+		ok15 && ok16 && ok17) {
+		return false, b, nil
+	}
+	ok = bytes.Equal(c1.Address, a4r[0:4]) && bytes.Equal(c1.Mask, a4r[4:8]) &&
+		bytes.Equal(c2.Address, a4l[0:4]) && bytes.Equal(c2.Mask, a4l[4:8]) &&
+		c3.Value == proto && c4.Value == lport && c5.LowLimit == llo && c5.HighLimit == lhi &&
+		c6.Value == rport && c7.LowLimit == rlo && c7.HighLimit == rhi && c8.Index == spi &&
+		c9.Class == tos && c9.Mask == tosMask && c10.Label == fl &&
+		bytes.Equal(c11.MAC, dmac[:]) && bytes.Equal(c12.MAC, smac[:]) &&
+		c13.VID == cvid && c14.VID == svid && c15.Value == cpcp && c16.Value == spcp && c17.EtherType == et
+	return ok, b, nil
+}
+
+// the six rule operations; operation 5 carries packet filter identifiers only, a rule may have no packet filter
+func verifLemmaRuleOperations(op QoSRuleOperationCode, id0, id1, prec, qfi, pf0, pf1 uint8, dqr, seg bool, port uint16) (bool, error) {
+	var pfs PacketFilterList
+	if op == OperationCodeModifyExistingQoSRuleAndDeletePacketFilters {
+		pfs = PacketFilterList{{Identifier: pf0}, {Identifier: pf1}}
+	} else {
+		pfs = PacketFilterList{
+			{Identifier: pf0, Direction: PacketFilterDirectionUplink, Components: PacketFilterComponentList{&PacketFilterSingleRemotePort{Value: port}}},
+			{Identifier: pf1, Direction: PacketFilterDirectionBidirectional, Components: PacketFilterComponentList{&PacketFilterMatchAll{}}},
+		}
+	}
+	rules := QoSRules{
+		{Identifier: id0, Operation: op, DQR: dqr, PacketFilterList: pfs, Precedence: prec, Segregation: seg, QFI: qfi},
+		{Identifier: id1, Operation: OperationCodeDeleteExistingQoSRule},
+	}
+	b, err := rules.MarshalBinary()
+	if err != nil {
+		return false, err
+	}
+	var got QoSRules
+	if err := got.UnmarshalBinary(b); err != nil {
+		return false, err
+	}
+	if len(got) != 2 || len(got[0].PacketFilterList) != 2 || len(got[1].PacketFilterList) != 0 {
+		return false, nil
+	}
+	r := got[0]
+	ok := r.Identifier == id0 && r.Operation == op && r.DQR == dqr && r.Precedence == prec && r.Segregation == seg &&
+		r.QFI == qfi && r.PacketFilterList[0].Identifier == pf0 && r.PacketFilterList[1].Identifier == pf1 &&
+		got[1].Identifier == id1 && got[1].Operation == OperationCodeDeleteExistingQoSRule && !got[1].DQR &&
+		got[1].Precedence == 0 && !got[1].Segregation && got[1].QFI == 0
+	if !ok {
+		return false, nil
+	}
+	if op == OperationCodeModifyExistingQoSRuleAndDeletePacketFilters {
+		return len(r.PacketFilterList[0].Components) == 0 && len(r.PacketFilterList[1].Components) == 0, nil
+	}
+	f0, f1 := r.PacketFilterList[0], r.PacketFilterList[1]
+	if f0.Direction != PacketFilterDirectionUplink || f1.Direction != PacketFilterDirectionBidirectional ||
+		len(f0.Components) != 1 || len(f1.Components) != 1 {
+		return false, nil
+	}
+	p, okp := f0.Components[0].(*PacketFilterSingleRemotePort)
+	_, okm := f1.Components[0].(*PacketFilterMatchAll)
+	return okp && okm && p.Value == port, nil
+}
+
+// an unknown component type is an error
+func verifLemmaUnknownComponent(t uint8, rest []byte) error {
+	b := append([]byte{t}, rest...)
+	var l PacketFilterComponentList
+	return l.UnmarshalBinary(b)
+}
+
+// QoS flow descriptions: the three operations, all seven parameter kinds, and a description without parameters
+func verifLemmaFlowDescs(qfi0, qfi1 uint8, op0, op1 QoSFlowOperationCode, fiveQI uint8, u1, u2, u3, u4 QoSFlowBitRateUnit,
+	v1, v2, v3, v4, win uint16, ebi uint8,
+) (bool, []byte, error) {
+	descs := QoSFlowDescs{
+		{QFI: qfi0, OperationCode: op0, Parameters: QoSFlowParameterList{
+			&QoSFlow5QI{FiveQI: fiveQI},
+			&QoSFlowGFBRUplink{Unit: u1, Value: v1},
+			&QoSFlowGFBRDownlink{Unit: u2, Value: v2},
+			&QoSFlowMFBRUplink{Unit: u3, Value: v3},
+			&QoSFlowMFBRDownlink{Unit: u4, Value: v4},
+			&QoSFlowAveragingWindow{AverageWindow: win},
+			&QoSFlowEBI{EBI: ebi},
+		}},
+		{QFI: qfi1, OperationCode: op1},
+	}
+	b, err := descs.MarshalBinary()
+	if err != nil {
+		return false, nil, err
+	}
+	var got QoSFlowDescs
+	if err := got.UnmarshalBinary(b); err != nil {
+		return false, b, err
+	}
+	if len(got) != 2 || len(got[0].Parameters) != 7 || len(got[1].Parameters) != 0 {
+		return false, b, nil
+	}
+	ok := got[0].QFI == qfi0 && got[0].OperationCode == op0 && got[1].QFI == qfi1 && got[1].OperationCode == op1
+	p := got[0].Parameters
+	p0, ok0 := p[0].(*QoSFlow5QI)
+	p1, ok1 := p[1].(*QoSFlowGFBRUplink)
+	p2, ok2 := p[2].(*QoSFlowGFBRDownlink)
+	p3, ok3 := p[3].(*QoSFlowMFBRUplink)
+	p4, ok4 := p[4].(*QoSFlowMFBRDownlink)
+	p5, ok5 := p[5].(*QoSFlowAveragingWindow)
+	p6, ok6 := p[6].(*QoSFlowEBI)
+	if !(ok && ok0 && ok1 && ok2 && ok3 && ok4 && ok5 && ok6) {
+		return false, b, nil
+	}
+	ok = p0.FiveQI == fiveQI && p1.Unit == u1 && p1.Value == v1 && p2.Unit == u2 && p2.Value == v2 &&
+		p3.Unit == u3 && p3.Value == v3 && p4.Unit == u4 && p4.Value == v4 && p5.AverageWindow == win && p6.EBI == ebi
+	return ok, b, nil
+}
+
+// an unknown parameter identifier is an error
+func verifLemmaUnknownParameter(qfi, id, l uint8, rest []byte) error {
+	b := append([]byte{qfi, 1 << 5, 1<<6 | 1, id, l}, rest...)
+	var d QoSFlowDescs
+	return d.UnmarshalBinary(b)
+}
